@@ -106,7 +106,7 @@ def frontends_pass(out, tier):
     if rej == 0:
         k = next(i for i, e in enumerate(evs) if e["ev"] == "fe_build" and e["res"] == "ok")
         e2 = json.loads(json.dumps(evs[:k + 1]))
-        e2[k]["body"] = "0" + e2[k]["body"][1:]
+        e2[k]["body"] = ("1" if e2[k]["body"][:1] == "0" else "0") + e2[k]["body"][1:]      # a digit that differs from the recorded one
         pp = os.path.join(C.WORK, "traces", "c05_probe_fe.ndjson")
         C.write_ndjson(pp, e2)
         m2, t2, _ = C.tlc_trace("Trace_BuildFrontEnds", "Trace_BuildFrontEnds.cfg", pp)
